@@ -40,13 +40,13 @@ abbrev Cid := Nat
 
 /-- the two scoped registrations: the constructor of `a` has a parameter of type `b` -/
 inductive Key | a | b
-deriving DecidableEq, Repr
+deriving DecidableEq, Repr, Hashable
 
 /-- a table indexed by `Key` -/
 structure KV (α : Type) where
   a : α
   b : α
-deriving DecidableEq, Repr
+deriving DecidableEq, Repr, Hashable
 
 namespace KV
 def get (m : KV α) : Key → α
@@ -79,14 +79,14 @@ inductive Res
   | ctorErr                   -- the user's constructor failed
   | initErr                   -- a scoped initializer failed
   | notInit                   -- ErrSingletonNotInitialized
-deriving DecidableEq, Repr
+deriving DecidableEq, Repr, Hashable
 
 /-- where a (nested) `Close` call returns to -/
 inductive K
   | ret (r : Res)                       -- to the user / to a goroutine that ends
   | kids (rest : List Cid) (k : K)      -- into the children loop of `S.Close` (scope.go:276-280)
   | scopes (rest : List Nat)            -- into the scope loop of `provider.Close` (provider.go:209-215)
-deriving DecidableEq, Repr
+deriving DecidableEq, Repr, Hashable
 
 inductive Pc
   -- `scope.Get` of scoped key `k`; `o = true`: nested inside the construction of `a`
@@ -137,7 +137,7 @@ inductive Pc
   | wKid (c : Cid)             -- scope.go:236-238     <-ctx.Done(); child.Close()         BLOCKING
   | xCancel                    -- the user cancels the context `S` was created with
   | done (r : Res)
-deriving DecidableEq, Repr
+deriving DecidableEq, Repr, Hashable
 
 /-- choices of the environment, fixed per thread (theorems quantify over all of them) -/
 structure Cfg where
@@ -146,7 +146,7 @@ structure Cfg where
   failT : Bool := false
   failInit : Bool := false  -- the scoped initializer fails in the child this thread creates
   rev : Bool := false       -- Go map iteration order of the snapshots this thread takes
-deriving DecidableEq, Repr
+deriving DecidableEq, Repr, Hashable
 
 def Cfg.fails (c : Cfg) : Key → Bool
   | .a => c.failA
@@ -174,7 +174,7 @@ structure Sh where
   casWins : Nat := 0
   panicked : Bool := false       -- a write to a nil map happened
   resurrected : Bool := false    -- an append to a disposal list already taken by Close happened
-deriving DecidableEq, Repr
+deriving DecidableEq, Repr, Hashable
 
 namespace Sh
 
@@ -314,12 +314,12 @@ structure Thr where
   cfg : Cfg := {}
   start : Pc     -- ghost: the program this thread was started with (never changes)
   pc : Pc
-deriving DecidableEq, Repr
+deriving DecidableEq, Repr, Hashable
 
 structure Sys where
   sh : Sh := {}
   thr : List Thr
-deriving DecidableEq, Repr
+deriving DecidableEq, Repr, Hashable
 
 def spawn (l : List Pc) : List Thr := l.map (fun p => { start := p, pc := p })
 
